@@ -122,6 +122,10 @@ struct RawComparer : ComparerBase {
       return COMPARE_RESULT_LESS;
     else if (n > 0)
       return COMPARE_RESULT_GREATER;
+    else if (lhs.size() < rhs_.size())
+      return COMPARE_RESULT_LESS;
+    else if (lhs.size() > rhs_.size())
+      return COMPARE_RESULT_GREATER;
     else
       return COMPARE_RESULT_EQUAL;
   }
